@@ -12,7 +12,11 @@
    [k |-> "meth", s |-> i]    the method S_i.plus_one, decorated with param.depends('v')
    [k |-> "bind2"]            param.bind(lambda a, b: a + b, S_1.param.v, S_2.param.v)
    [k |-> "rx", s |-> i]      S_i.param.v.rx() + 1
-   [k |-> "nested", s |-> i]  the list [S_i.param.v, 7]      (for r only)
+   [k |-> "nested", s |-> i]  the list [S_i.param.v, 7]      (for r only; r accepts any container)
+   [k |-> "nestedd", s |-> i] the dictionary {"k": S_i.param.v, "c": 7}
+   [k |-> "nestedt", s |-> i] the tuple (S_i.param.v, 7)
+   [k |-> "nestedb", s |-> i] the list [param.bind(lambda v: v + 1, S_i.param.v), 8]
+   [k |-> "nested2", s |-> i] the two-level list [[S_i.param.v], 7]
  Links are made by the constructor or by a later assignment.
 
  link[n]  = the reference parameter n is currently linked to (NoRef if none)
@@ -40,8 +44,10 @@ PNames == {"p", "q", "r", "k"}      \* k: Integer, constant=True, allow_refs (li
 NoneV == -1                          \* a source whose v is None (allowed there, invalid for p, q, k)
 CV(v) == IF Clamp /\ v > 4 THEN 4 ELSE v
 NoRef == [k |-> "none"]
+NestedKinds == {"nested", "nestedd", "nestedt", "nestedb", "nested2"}
+NestBase(k) == CASE k = "nested" -> 100 [] k = "nestedd" -> 200 [] k = "nestedt" -> 300 [] k = "nestedb" -> 400 [] k = "nested2" -> 500
 RefsFor(n) == IF n = "k" THEN (IF "const" \in Kinds THEN {[k |-> "param", s |-> 1], [k |-> "bind1", s |-> 2]} ELSE {})
-              ELSE IF n = "r" THEN {[k |-> "nested", s |-> i] : i \in Sources} \cap {x \in {[k |-> "nested", s |-> i] : i \in Sources} : "nested" \in Kinds}
+              ELSE IF n = "r" THEN {[k |-> kk, s |-> i] : kk \in Kinds \cap NestedKinds, i \in Sources}
               ELSE {[k |-> kk, s |-> i] : kk \in Kinds \cap {"param", "paramw", "bind1", "meth", "rx"}, i \in Sources}
                    \cup (IF "bind2" \in Kinds THEN {[k |-> "bind2"]} ELSE {})
 
@@ -57,7 +63,9 @@ Resolve(ref, s) ==
     [] ref.k = "paramw" -> s[ref.s + 10]
     [] ref.k \in {"bind1", "meth", "rx"} -> IF s[ref.s] = NoneV THEN NoneV ELSE s[ref.s] + 1      \* (the functions pass None through)
     [] ref.k = "bind2" -> IF s[1] = NoneV \/ s[2] = NoneV THEN NoneV ELSE s[1] + s[2]
-    [] ref.k = "nested" -> s[ref.s] + 100          \* encodes the list [v, 7]
+    \* containers: encoded as base + content (content -1: the container holds None)
+    [] ref.k = "nestedb" -> NestBase(ref.k) + (IF s[ref.s] = NoneV THEN NoneV ELSE s[ref.s] + 1)
+    [] ref.k \in NestedKinds -> NestBase(ref.k) + s[ref.s]
 Valid(n, v) == IF n = "r" THEN TRUE ELSE v \in 0..5
 Env(sv, sw) == [i \in {1, 2, 11, 12} |-> IF i < 10 THEN sv[i] ELSE sw[i - 10]]
 Watched(lk) == {i \in Sources : \E n \in PNames : i \in Deps(lk[n])}
